@@ -21,8 +21,9 @@ structure Cfg where
   oversizeIsEof : Bool
   /-- reader: a CRC-valid body that `decode_body` rejects ends the log instead of propagating the error -/
   undecodableIsEof : Bool
-  /-- `Wal::open` cuts the file back to the end of the last valid record (`set_len(valid_end)`) -/
-  truncatesOnOpen : Bool
+  /-- the first `Wal::append` through a handle cuts the file back to the end of the last valid record
+      (`if !self.tail_checked { … set_len(valid_end) … }`) before it writes -/
+  truncatesBeforeAppend : Bool
   /-- `Wal::append` refuses bodies above the cap instead of writing a record no reader accepts -/
   appendRejectsOversize : Bool
   deriving Repr, DecidableEq
@@ -30,7 +31,7 @@ structure Cfg where
 /-- the source as it is now -/
 def Cfg.current : Cfg :=
   ⟨WalRec.Cfg.current, Generated.walMaxRecordLen, Generated.walOversizeIsEof, Generated.walUndecodableIsEof,
-   Generated.walTruncatesOnOpen, Generated.walAppendRejectsOversize⟩
+   Generated.walTruncatesBeforeAppend, Generated.walAppendRejectsOversize⟩
 /-- the source as pinned -/
 def Cfg.pinned : Cfg := ⟨WalRec.Cfg.pinned, 1048576, false, false, false, false⟩
 
@@ -137,40 +138,58 @@ def recover (cfg : Cfg) (file : Bytes) : Except OErr (List Tx) :=
     | .eof _ => .ok txs
     | .err e => .error (.read e)
 
-/-- mirrors `Wal::open`: returns the file content the handle will append to.
-    With the `fix:` it is `valid_end` (`while reader.next_record()?.is_some() {}`, `reader.offset`) and `set_len`. -/
-def walOpen (cfg : Cfg) (file : Bytes) : Except OErr Bytes :=
-  if cfg.truncatesOnOpen then
-    match (readAll cfg file).2 with
-    | .err e => .error (.read e)
-    | .eof tail => .ok (file.take (file.length - tail.length))
-  else .ok file
+/-- a `Wal` handle: the log file it appends to and its `tail_checked` flag -/
+structure Handle where
+  file : Bytes
+  tailChecked : Bool
+  deriving Repr, DecidableEq
 
-/-- `Wal::append` failures: `encode_body` error, or `Error::WalRecordTooLarge` -/
+/-- mirrors `Wal::open`: opens (creates) the file; the content is not touched -/
+def walOpen (file : Bytes) : Handle := ⟨file, false⟩
+
+/-- mirrors `Wal::valid_end`: `while reader.next_record()?.is_some() {}`, `reader.offset` — as the prefix of
+    the file that ends there -/
+def validPrefix (cfg : Cfg) (file : Bytes) : Except RErr Bytes :=
+  match (readAll cfg file).2 with
+  | .err e => .error e
+  | .eof tail => .ok (file.take (file.length - tail.length))
+
+/-- `Wal::append` failures: `encode_body` error, `Error::WalRecordTooLarge`, or an error of the tail scan -/
 inductive AErr
   | enc (e : WErr)
   | tooLarge
+  | scan (e : RErr)
   deriving Repr, DecidableEq
 
-/-- mirrors `Wal::append`: `encode_body()?`, `u32::try_from(body.len())`, (fix: the cap), then
-    `seek(End(0))` and the three `write_all`s — the file grows by one frame at its *end* -/
-def append (cfg : Cfg) (file : Bytes) (r : Rec) : Except AErr Bytes :=
+/-- mirrors `Wal::append`: `encode_body()?`, `u32::try_from(body.len())`, (fix: the cap), (fix: on the first
+    append through this handle `set_len(valid_end)`), then `seek(End(0))` and the three `write_all`s — the file
+    grows by one frame at its *end*.  A failing append leaves file and handle as they were. -/
+def append (cfg : Cfg) (h : Handle) (r : Rec) : Except AErr Handle :=
   match encodeBody cfg.codec r with
   | .error e => .error (.enc e)
   | .ok body =>
     if ¬ body.length < two32 then .error .tooLarge
     else if cfg.appendRejectsOversize && decide (body.length > cfg.maxLen) then .error .tooLarge
-    else .ok (file ++ frame body)
+    else if cfg.truncatesBeforeAppend && !h.tailChecked then
+      match validPrefix cfg h.file with
+      | .error e => .error (.scan e)
+      | .ok f => .ok ⟨f ++ frame body, true⟩
+    else .ok ⟨h.file ++ frame body, h.tailChecked⟩
 
-/-- the WAL part of `GraphEngine::open`: `Wal::open(&wal_path)?` then `wal.replay_committed()?`;
-    returns the file as left on disk and the committed transactions handed to the rest of recovery -/
-def engineOpen (cfg : Cfg) (file : Bytes) : Except OErr (Bytes × List Tx) :=
-  match walOpen cfg file with
-  | .error e => .error e
-  | .ok f =>
-    match recover cfg f with
+/-- a writer appending records one after the other through one handle; stops at the first failure -/
+def appendAll (cfg : Cfg) (h : Handle) : List Rec → Except AErr Handle
+  | [] => .ok h
+  | r :: rs =>
+    match append cfg h r with
+    | .ok h' => appendAll cfg h' rs
     | .error e => .error e
-    | .ok txs => .ok (f, txs)
+
+/-- the WAL part of `GraphEngine::open`: `Wal::open(&wal_path)?` then `wal.replay_committed()?`: the handle the
+    engine will commit through and the committed transactions handed to the rest of recovery -/
+def engineOpen (cfg : Cfg) (file : Bytes) : Except OErr (Handle × List Tx) :=
+  match recover cfg file with
+  | .error e => .error e
+  | .ok txs => .ok (walOpen file, txs)
 
 /-- the frames of a list of bodies, back to back -/
 def frames : List Bytes → Bytes
